@@ -20,7 +20,7 @@ from concurrent.futures import ThreadPoolExecutor
 V = '/verif'
 R = '/repo'
 PY = '/venv/bin/python'
-S = '/tmp/vs'
+S = os.environ.get('VS_DIR', '/tmp/vs')
 NEEDS = {}
 if os.path.exists(os.path.join(V, 'seeded', 'needs.json')):
     NEEDS = json.load(open(os.path.join(V, 'seeded', 'needs.json')))
